@@ -7,7 +7,7 @@ EXTENDS YangMeaning, EvalBase
 Check(r) ==
     CASE r.chk = "meaning" ->
             IF r.err # "" THEN "well-formed-module-set-rejected"
-            ELSE LET d == Diff(Meaning(r.ms, "m", { r.on[i] : i \in DOMAIN r.on }), r.got) IN
+            ELSE LET d == Diff(Meaning(r.ms, "m", { r.on[i] : i \in DOMAIN r.on }), r.got, FALSE) IN
                  IF d # "ok" THEN d
                  ELSE IF r.shared # << >> THEN "copy-of-grouping-shared-between-uses"
                  ELSE IF r.parentlink # << >> THEN "parent-link-wrong"
